@@ -141,3 +141,8 @@ package xbus
 //@ func (*socket).SendMsg
 //@   loop 1 ensures p.p.ID() != ite(len(old(m.Header)) == 4, be32(old(m.Header)), 0) ==> called_since("loop1:head", "Clone") && sel("select#1") != -2
 //@   before select#1 assert selsends(p.sendQ) && held(s.Mutex)
+
+// ---- round 10 (C10 "later calls fail with a closed error"): Send on a closed socket ----
+//@ func (*socket).SendMsg
+//@   ghost wasclosed = s.closed at call:Lock#1
+//@   ensures wasclosed ==> result == protocol.ErrClosed
